@@ -6,7 +6,7 @@
 #include "vf_rt.h"
 
 #define MAXSLOTS 4096
-#define MAXHEAPS 8
+#define MAXHEAPS 12
 #define MAXARENAS 4
 
 typedef struct { void* p; int id; size_t req, us, wr; uint32_t gen; int heap; int zl; size_t al, off; int big; } blk_t;
@@ -158,12 +158,14 @@ static size_t pick_align(size_t n) {
   return (size_t)1 << k;
 }
 
+static size_t max_fill = (size_t)-1;    /* cap on the number of bytes the program writes into a block (huge blocks in the arena programs) */
 static void set_block(int s, void* p, size_t req, int heap, int zl, size_t al, size_t off, int fillmode) {
   blk_t* b = &slots[s];
   b->p = p; b->id = next_id++; b->req = req; b->us = mi_usable_size(p); b->heap = heap; b->al = al; b->off = off;
   b->gen = 1 + (uint32_t)vf_randn(1000);
   b->wr = (fillmode == 0 ? b->us : (fillmode == 1 ? req : (size_t)vf_randn(req + 1)));
   if (b->wr > b->us) b->wr = b->us;
+  if (b->wr > max_fill) b->wr = max_fill;
   b->zl = zl && b->wr <= req;
   b->big = (b->us > 1048576);
   if (b->big) big_budget += b->us;
@@ -231,8 +233,9 @@ static int pick_heap_idx(void) {  /* a live heap of this thread */
   return 0;
 }
 
-static void op_alloc_ex(int op, size_t n, size_t al, size_t off, int hidx, int fillmode) {
-  int s = pick_free_slot(); if (s < 0) return;
+static int last_alloc_slot = -1;   /* slot of the block returned by the most recent op_alloc_ex / op_realloc_ex of THIS thread, or -1 */
+static int op_alloc_ex(int op, size_t n, size_t al, size_t off, int hidx, int fillmode) {
+  int s = pick_free_slot(); if (s < 0) return -1;
   { /* the throwing `new` entry points abort on exhaustion: not with heaps bound to a (possibly full) arena */
     int eff = ((aops[op].fl & F_HEAP) ? hidx : dflt_idx);
     if (eff >= 0 && hps[eff].arena != 0) {
@@ -275,11 +278,12 @@ static void op_alloc_ex(int op, size_t n, size_t al, size_t off, int hidx, int f
     set_block(s, p, n, heapid, (fl & F_ZERO) != 0, al, off, (fl & F_ZERO) ? 1 : fillmode);
     /* touch and fill: the whole usable size must be writable */
     vf_fill(p, (uint32_t)slots[s].id, slots[s].gen, slots[s].wr);
-    if (slots[s].wr < us && !(fl & F_ZERO)) { ((volatile uint8_t*)p)[us - 1] = 0x5A; }
+    if (slots[s].wr < us && !(fl & F_ZERO) && max_fill == (size_t)-1) { ((volatile uint8_t*)p)[us - 1] = 0x5A; }
     r.id = slots[s].id; r.a = p; r.us = us; r.gen = slots[s].gen; r.wr = slots[s].wr;
   }
   else unreserve_slot(s);
   log_ret_begin(aops[op].name, &r); log_obs(-1, -1, 3); log_ret_end();
+  return (p != NULL ? s : -1);
 }
 static void op_alloc(void) {
   int op;
@@ -607,12 +611,14 @@ static void op_expand(void) {
 /* ------------------------------------------------------------------ heaps */
 static void heap_new_op(void) {
   ret_t r; memset(&r, 0, sizeof(r));
-  int i; for (i = 0; i < MAXHEAPS; i++) if (!hps[i].alive) break;
+  int i; for (i = 0; i < MAXHEAPS; i++) if (!hps[i].alive && hps[i].descid != -1) break;
   if (i >= MAXHEAPS) return;
+  hps[i].descid = -1;     /* reserve the table entry across the call (other threads may run meanwhile) */
   log_call_begin("heap_new", 0, 0, 0, 0, 0, 0, "ok", 0, 0); log_obs(-1, -1, 0); log_call_end();
   mi_heap_t* h = mi_heap_new();
   vf_in_call = 0;
   r.null = (h == NULL);
+  if (!h) hps[i].descid = 0;
   if (h) { hps[i].hp = h; hps[i].id = next_heap_id++; hps[i].alive = 1; hps[i].arena = 0; hps[i].descid = next_id++;
            r.h = hps[i].id; r.id = hps[i].descid; r.a = h; r.us = mi_usable_size(h); }
   log_ret_begin("heap_new", &r); log_obs(-1, -1, 1); log_ret_end();
@@ -624,7 +630,7 @@ static void heap_delete_op(int i) {     /* blocks migrate to the backing heap */
   vf_in_call = 0;
   for (int s = 0; s < MAXSLOTS; s++) if (slots[s].p && slots[s].heap == hps[i].id) slots[s].heap = hps[0].id;
   if (dflt_idx == i) dflt_idx = 0;
-  hps[i].alive = 0;
+  hps[i].alive = 0; hps[i].descid = 0;
   log_ret_begin("heap_delete", &r); log_obs(-1, -1, 4); log_ret_end();
 }
 static void heap_destroy_op(int i) {    /* exactly its own blocks die */
@@ -633,7 +639,7 @@ static void heap_destroy_op(int i) {    /* exactly its own blocks die */
   for (int s = 0; s < MAXSLOTS; s++) if (slots[s].p && slots[s].heap == hps[i].id) clear_block(s);
   mi_heap_destroy(hps[i].hp);
   if (dflt_idx == i) dflt_idx = 0;
-  hps[i].alive = 0;
+  hps[i].alive = 0; hps[i].descid = 0;
   log_ret_begin("heap_destroy", &r); log_obs(-1, -1, 6); log_ret_end();
 }
 static void heap_set_default_op(int i) {
@@ -668,12 +674,14 @@ static int arena_setup(size_t size, size_t skew, int exclusive) {
 }
 static int heap_new_in_arena_op(int aridx) {
   ret_t r; memset(&r, 0, sizeof(r));
-  int i; for (i = 0; i < MAXHEAPS; i++) if (!hps[i].alive) break;
+  int i; for (i = 0; i < MAXHEAPS; i++) if (!hps[i].alive && hps[i].descid != -1) break;
   if (i >= MAXHEAPS || aridx < 0) return -1;
+  hps[i].descid = -1;
   log_call_begin("heap_new_in_arena", 0, 0, 0, 0, 0, 0, "ok", ars[aridx].id, 0); log_obs(-1, -1, 0); log_call_end();
   mi_heap_t* h = mi_heap_new_in_arena(ars[aridx].aid);
   vf_in_call = 0;
   r.null = (h == NULL);
+  if (!h) hps[i].descid = 0;
   if (h) { hps[i].hp = h; hps[i].id = next_heap_id++; hps[i].alive = 1; hps[i].arena = ars[aridx].id; hps[i].descid = next_id++;
            r.h = hps[i].id; r.id = hps[i].descid; r.a = h; r.us = mi_usable_size(h); }
   log_ret_begin("heap_new_in_arena", &r); log_obs(-1, -1, 1); log_ret_end();
@@ -881,8 +889,8 @@ static void* worker_main(void* arg) {
   alloc_many(w->count, w->lo, w->hi, 1);
   int k = 0;
   for (int s = 0; s < MAXSLOTS; s++) if (slots[s].p && slots[s].heap == w->heapid && (k++ % 2) == 0) op_free_slot(s, FR_free);
+  vf_logf("{\"e\":\"tdone\",\"t\":%d}", w->t); vf_log_line_end();   /* logged first: the thread's heap descriptors are released inside mi_thread_done */
   vf_in_call = 1; mi_thread_done(); vf_in_call = 0;   /* (also called again by the pthread key destructor: harmless) */
-  vf_logf("{\"e\":\"tdone\",\"t\":%d}", w->t); vf_log_line_end();
   cur_t = 0; cur_theap = 0;
 #if defined(VF_SHIM)
   vf_cur_thread = 0;
@@ -946,10 +954,7 @@ static void run_c18(const char* pattern, long step_ms) {
   int held[12]; int nh = 0;
   for (int k = 0; k < 12; k++) {
     vf_clock_advance(step_ms);
-    int before = next_id;
-    op_alloc_ex(A_malloc, fresh[k], 0, 0, 0, 0);
-    if (next_id != before) held[nh++] = slot_of_last();
-    ev_areas();
+    int ns_ = op_alloc_ex(A_malloc, fresh[k], 0, 0, 0, 0); if (ns_ >= 0) { held[nh++] = ns_; }ev_areas();
     vf_clock_advance(step_ms);
     if (nh > 0 && k % 2 == 1) { op_free_slot(held[--nh], FR_free); ev_areas(); vf_clock_advance(step_ms); }
     do_collect(0);
